@@ -1523,7 +1523,10 @@ pub fn bmff_offset_refs(b: &[u8]) -> Result<Vec<BmffRef>, String> {
             let base = rd(&mut p, bsz)?;
             let next = rd(&mut p, 2)?;
             if cm == 0 && bsz > 0 && base != 0 {
-                refs.push(BmffRef { name: format!("{ip}/item{id}/base"), entry_pos: base_pos, width: bsz as u8, target: base, target_len: None });
+                // A base offset is only an addend of the item's extents (which are dereferenced below with their
+                // real lengths); it is listed as an offset *field* but addresses no bytes of its own. (Dereferencing
+                // 16 bytes at the base made C09 compare bytes of the neighbouring C2PA box for short items.)
+                refs.push(BmffRef { name: format!("{ip}/item{id}/base"), entry_pos: base_pos, width: bsz as u8, target: base, target_len: Some(0) });
             }
             for e in 0..next {
                 if version >= 1 && isz > 0 {
